@@ -136,6 +136,34 @@ GROUPS = {
              "intro v d w\n  unfold gWhenMissing\n  by_cases h : v.same theMissing = true <;> missing_eval"),
         ],
     },
+    "metrics": {
+        "import": "Haiway.Bridge.Metrics", "open": "Haiway.MiniPy Haiway.Bridge.Metrics",
+        "defs": {
+            "gRecord": Target("src/haiway/context/metrics.py", "ScopeMetrics", "record", ["metric", "merge"],
+                              {"_metrics": 0, "_completed": 1}, {}, containers={"self._metrics"},
+                              method_externals={"done": (110, ["$recv"])}, ext_functions={"type": (140, ["@0"])},
+                              callables={"merge": 141}),
+            "gCtxRecord": Target("src/haiway/context/metrics.py", "MetricsContext", "record", ["metric", "merge"], {},
+                                 {("cls._context", "get"): (102, []), ("cls", "log_error"): (151, [])},
+                                 method_externals={"record": (150, ["$recv", "@0", "@merge|1"])}),
+        },
+        "obligations": [
+            ("record_refines", ["gRecord"], "RecordRefines gRecord",
+             "intro emb s v mergeFn w hm he\n  unfold gRecord\n"
+             "  rcases ho : w.mergeOut with nv | e\n"
+             "  · cases hc : w.completed <;> cases hg : get s (w.tyOf (emb v)) <;>\n"
+             "      (try (rename_i cur; cases ht : (emb cur).truthy)) <;> metrics_eval <;> (try simp_all)\n"
+             "  · obtain ⟨c, n, rfl⟩ := he e ho\n"
+             "    cases hc : w.completed <;> cases hg : get s (w.tyOf (emb v)) <;>\n"
+             "      (try (rename_i cur; cases ht : (emb cur).truthy)) <;> metrics_eval <;> (try simp_all)"),
+            ("ctx_record_refines", ["gCtxRecord"], "CtxRecordRefines gCtxRecord",
+             "intro metric mergeFn w hr hl he\n  unfold gCtxRecord\n"
+             "  cases hv : w.var <;> cases ho : w.recordOut\n"
+             "  case none.inl => metrics_eval\n  case some.inl => metrics_eval\n"
+             "  case none.inr e => obtain ⟨c, n, rfl⟩ := he e ho; metrics_eval\n"
+             "  case some.inr e => obtain ⟨c, n, rfl⟩ := he e ho; by_cases hs : isSub c cException = true <;> metrics_eval <;> simp_all"),
+        ],
+    },
     "queue": {
         "import": "Haiway.Bridge.Queue", "open": "Haiway.MiniPy Haiway.Bridge.Queue",
         "defs": {
@@ -283,7 +311,7 @@ if __name__ == "__main__":
 
     repo = Path(os.environ.get("HAIWAY_REPO", "/repo"))
     lean = Path(__file__).resolve().parent.parent / "lean"
-    for grp in sys.argv[1:] or list(GROUPS):
+    for grp in [a for a in sys.argv[1:] if not a.startswith("--")] or list(GROUPS):
         if "--print" in sys.argv:
             print(lean_text(grp, repo)[0])
             continue
